@@ -13,10 +13,17 @@ def oracle(trace, session):
     a GET is refused."""
     answered = False
     valid_given = False
+    sent_challenge = None
     for t in trace:
         op = t["op"]
         if op[0] == "hls" and t["result"].startswith("ok") and t["result"].endswith("junk"):
             return "C08 the client's HLS reply is not security-control || counter || GMAC(sc || AK || meter challenge) under its nonce"
+        if op[0] == "recv" and op[1][0] == "aare" and t["result"].startswith("ok") and len(op) > 2 and not op[2]:
+            sent_challenge = op[1][4]                 # the challenge as the meter put it on the wire
+        if op[0] == "hls" and t["result"].startswith("ok") and sent_challenge not in (None, "none"):
+            over = t["result"].split(",")[-1]
+            if over != sent_challenge:
+                return f"C08 the client's HLS reply is a GMAC over {over}, the meter's challenge was {sent_challenge}"
         if op[0] == "recv" and len(op) > 3 and op[3] in ("valid-answer", "invalid-answer") and "AWAITING_HLS_CLIENT_CHALLENGE_RESULT" in t["before"]:
             answered = True
             ready = "st=READY" in t["after"]
@@ -64,7 +71,55 @@ class C08(fw.Prop):
         ct, ic = p.seal(f"ard.{status}.{hls}")
         return ["recv", ["ggc", MT, str(p.cfg.suite + 48), str(ic), ct], transform, tag]
 
+    def history_cases(self, rng, deep):
+        """things that need more than one association on the connection, or a particular challenge."""
+        for suite, klen in ((0, 16), (2, 32)):
+            ek, ak = (1, klen), (2, klen)
+            # a second association on the same connection with a meter that now names another title (and another challenge): the
+            # answer recorded during the first association - valid then - is not the GMAC under the new nonce
+            for t2, mch2 in ((MT[:-2] + "99", MCH), (MT, "d1d2d3d4d5d6d7d8e1"), (MT[:-2] + "77", "d1d2d3d4d5d6d7d8")):
+                cfg = cl.Cfg(ek=ek, ak=ak, suite=suite, auth=5, cic=rng.choice([0, 400]), challenge="a1a2a3a4a5a6a7a8")
+                p = PathK(cfg, ek, ak)
+                first = [["send", "aarq", 1], p.resp("aare", (0, 5)), ["hls"], ["send", "actReq", 1]]
+                first += [p.resp("actRespData", p.valid_proof(60))]
+                first += [["send", "getReq", 1], p.resp("getRespNormal"), ["send", "rlrq", 1]]
+                first += [p.resp("rlre")]
+                q = PathK(cfg, ek, ak)
+                q.mic, q.mch = p.mic, mch2
+                aare2 = q.resp("aare", (0, 5))
+                aare2[1][3] = t2                                         # (the AARE names t2; its ciphered part is under t2 as well)
+                aare2[1][5] = aare2[1][5].replace(MT, t2)
+                # the first answer again, re-sealed for the second association (fresh transport counter, under the title named now),
+                # carrying the old proof
+                old_proof = p.valid_proof(60)
+                ic = q.next_ic()
+                ct = f"seal:{ek[0]}:{ek[1]}:{t2}:{ic}:{suite + 48}:{ak[0]}:{ak[1]}:ard.0.{old_proof}"
+                # (with the same title and the same client challenge the old proof is the GMAC asked for: valid again)
+                replayed = ["recv", ["ggc", t2, str(suite + 48), str(ic), ct], None, "invalid-answer" if t2 != MT else "valid-answer"]
+                yield self.make_case({"cfg": cfg.to_json(), "ops": first + [["send", "aarq", 1], aare2, ["hls"], ["send", "actReq", 1], replayed,
+                                                                          ["send", "getReq", 1]], "expect": "invalid", "tag": "second-association-old-answer"})
+            # meter challenges that end in blanks, zero bytes, or consist of them (8..64 bytes): the reply is over the challenge as sent
+            for mch in ("c1c2c3c4c5c6c720", "c1c2c3c4c5c62020", "2020202020202020", "c1c2c3c4c5c6c700", "20" * 64, "c1" * 63 + "20", "c1c2c3c4c5c6c7c820",
+                        "00" * 8, "c1c2c3c4c5c6c70a", "c1c2c3c4c5c6c7ff"):
+                cfg = cl.Cfg(ek=ek, ak=ak, suite=suite, auth=5, cic=rng.choice([0, 9]))
+                p = PathK(cfg, ek, ak)
+                p.mch = mch
+                ops = [["send", "aarq", 1], p.resp("aare", (0, 5)), ["hls"], ["send", "actReq", 1], p.resp("actRespData", p.valid_proof(31)) + ["valid-answer"], ["send", "getReq", 1]]
+                yield self.make_case({"cfg": cfg.to_json(), "ops": ops, "expect": "valid", "tag": "challenge-bytes"})
+            # an answer whose counter field is zero (or the transport counter) while its tag was made under another counter
+            for field_ic, mac_ic in ((0, "transport"), (0, 77), ("transport", 77), (77, 0), (0, 1)):
+                cfg = cl.Cfg(ek=ek, ak=ak, suite=suite, auth=5, cic=3)
+                p = PathK(cfg, ek, ak)
+                base = [["send", "aarq", 1], p.resp("aare", (0, 5)), ["hls"], ["send", "actReq", 1]]
+                tic = p.mic + 1                                          # the counter the carrying APDU will have
+                f_ic = tic if field_ic == "transport" else field_ic
+                m_ic = tic if mac_ic == "transport" else mac_ic
+                proof = (f"proof;{suite + 16};{f_ic};mac,{ek[0]},{ek[1]},{MT},{m_ic},{suite + 16},{ak[0]},{ak[1]},{cfg.challenge}")
+                yield self.make_case({"cfg": cfg.to_json(), "ops": base + [p.resp("actRespData", proof) + ["invalid-answer"], ["send", "getReq", 1]], "expect": "invalid",
+                                      "tag": "counter-field-vs-tag"})
+
     def cases(self, rng, tier, deep):
+        yield from self.history_cases(rng, deep)
         for suite, klen in ((0, 16), (1, 16), (2, 32)):
             for chal_len in (8, 9, 32, 63, 64):
                 for cic in ((0, 2 ** 32 - 3) if chal_len == 8 else (rng.choice([0, 5, 1000]),)):
